@@ -182,9 +182,32 @@ def rewrite(node, env, elem):
     return node
 
 
+def bind_args(node, argmap):
+    """substitute the parameters of a function body's node by the caller's argument nodes ({1-based index: node})"""
+    k = node[0]
+    if k == "arg":
+        return argmap.get(node[1], node)
+    if k == "proj":
+        from .exprs import mkproj
+        return mkproj(bind_args(node[1], argmap), node[2])
+    if k == "bin":
+        return ("bin", node[1], bind_args(node[2], argmap), bind_args(node[3], argmap))
+    if k == "un":
+        return ("un", node[1], bind_args(node[2], argmap))
+    if k == "cast":
+        return ("cast", bind_args(node[1], argmap), node[2])
+    if k == "discr":
+        return ("discr", bind_args(node[1], argmap))
+    if k == "call":
+        return ("call", node[1], tuple(bind_args(a, argmap) for a in node[2]), node[3])
+    if k == "agg":
+        return ("agg", node[1], node[2], tuple(bind_args(a, argmap) for a in node[3]))
+    return node
+
+
 def elem_node(chain):
     """pseudo-leaf for 'an element of the collection this chain iterates'"""
-    return ("elem", chain.source_name() or origin_desc(strip(chain.source)), tuple(chain.adaptors()))
+    return elem_of_chain(chain)
 
 
 # --------------------------------------------------------------------------- scopes (function + nested closures)
@@ -224,9 +247,14 @@ def norm_for_elem(node):
     return node
 
 
+ELEM_SOURCES = {}     # (name, adaptors) of an elem pseudo-leaf -> the chain it stands for (rules that need the collection's own definition look it up here)
+
+
 def elem_of_chain(ch):
     """element node of a chain; if the chain maps through enumerate/zip etc. the adaptors are recorded"""
-    return ("elem", ch.source_name() or origin_desc(strip(ch.source)), tuple(ch.adaptors()))
+    e = ("elem", ch.source_name() or origin_desc(strip(ch.source)), tuple(ch.adaptors()))
+    ELEM_SOURCES.setdefault((e[1], e[2]), ch)
+    return e
 
 
 class Scope:
